@@ -105,6 +105,9 @@ FAMILY = [
      [(("q", 0), ("w", 0)), (("q", 1), ("w", 1)), (("q", 2), ("x", 0)), (("q", 3), ("y", 0)), (("q", 4), ("z", 0))]),
     ("measure_params", [("q", 3)], [("c", 2)], [("X", [], [("q", 2)]), ("Ry", ["beta"], [("q", 0)]), ("Rz", ["alpha"], [("q", 0)]), ("CX", [], [("q", 2), ("q", 1)])],
      [(("q", 2), ("c", 0)), (("q", 1), ("c", 1))]),
+    # circuits with an IMPLICIT qubit permutation (SWAPs replaced by wire swaps at the end of the circuit)
+    ("implicit_swap", [("q", 3)], [], [("X", [], [("q", 0)]), ("SWAP", [], [("q", 0), ("q", 2)]), ("Ry", [0.3], [("q", 1)]), ("CX", [], [("q", 2), ("q", 1)]), ("Rz", [0.4], [("q", 0)])], []),
+    ("implicit_cycle", [("b", 1), ("a", 2)], [], [("X", [], [("a", 0)]), ("SWAP", [], [("a", 0), ("b", 0)]), ("Ry", [0.3], [("a", 1)]), ("SWAP", [], [("b", 0), ("a", 1)]), ("CX", [], [("a", 1), ("a", 0)])], []),
     ("eleven", [("q", 11)], [], [("X", [], [("q", 10)]), ("Ry", [0.3], [("q", 2)]), ("CX", [], [("q", 10), ("q", 1)]), ("Rz", [0.6], [("q", 9)]), ("H", [], [("q", 9)])], []),
 ]
 PVALS = [0.7, 0.3, -0.45, 1.2]
@@ -118,6 +121,9 @@ def build(spec, with_measure=True, subst=None):
         args = [Q[r][i] for r, i in qs]
         params = [(Symbol(p) if subst is None else subst[p]) if isinstance(p, str) else p for p in ps]
         c.add_gate(getattr(OpType, op), params, args)
+    if name.startswith("implicit"):
+        c.replace_SWAPs()
+        assert any(k != v for k, v in c.implicit_qubit_permutation().items())
     if with_measure:
         for (qr, qi), (cr, ci) in meas:
             c.Measure(Q[qr][qi], C[cr][ci])
